@@ -2,7 +2,7 @@
   Bridge C12 — the regenerated leaf formulas of the price-system validator (Gen/C12.lean, produced from
   `validate_price_system` in the current source of pabutools/analysis/priceability.py and `round_cmp` in
   pabutools/utils.py on every run) are the formulas of the model (PabuModel/Price.lean): the rounding
-  precision, `round_cmp`, the derived per-voter quantities (spent, leftover, maximal payment), every recorded
+  precision, `round_cmp` (the rounding function applied to the difference), the derived per-voter quantities (spent, leftover, maximal payment), every recorded
   error test (C0a, C0b, C1, negative payment, C2, C3, C4, C5, S5), the summands of the sums they compare, the
   two switches (`exhaustive`, `stable`) and the final `not errors`.  `validate` restates the whole model
   validator through the regenerated definitions only.
@@ -26,8 +26,25 @@ theorem checkRoundPrecision (x : Rat) (k : Nat) (hk : (k : Rat) = Gen.C12.checkR
   unfold round2
   norm_num
 
-/-- `round_cmp`: `round(a, precision) - round(b, precision)` -/
-theorem roundCmp (a b : Rat) : Price.roundCmp a b = Gen.C12.roundCmp (round2 a) (round2 b) := rfl
+/-- Python's `round(x, k)` on an exact rational: half-even rounding to `k` decimals -/
+def roundTo (x k : Rat) : Rat := (roundHalfEven (x * 10 ^ k.num.toNat) : Rat) / 10 ^ k.num.toNat
+
+/-- … which at the validator's precision `CHECK_ROUND_PRECISION` is the model's `round2` -/
+theorem roundTo_precision (x : Rat) : roundTo x Gen.C12.checkRoundPrecision = round2 x := by
+  unfold roundTo Gen.C12.checkRoundPrecision round2
+  have h : ((2 : Rat)).num.toNat = 2 := by norm_num; rfl
+  rw [h]
+  norm_num
+
+/-- `round_cmp`: `round(a - b, precision)` — the regenerated leaf applies the rounding function (its parameter) to the
+    DIFFERENCE of the two numbers; with Python's `round` at the validator's precision it is the model's `roundCmp` -/
+theorem roundCmp (a b : Rat) : Price.roundCmp a b = Gen.C12.roundCmp roundTo a b Gen.C12.checkRoundPrecision := by
+  unfold Gen.C12.roundCmp
+  rw [roundTo_precision]
+  rfl
+
+/-- the leaf for an arbitrary rounding function: it is that function applied once, to `a - b` -/
+theorem roundCmp_leaf (round : Rat → Rat → Rat) (a b p : Rat) : Gen.C12.roundCmp round a b p = round (a - b) p := rfl
 
 /-! ### derived quantities -/
 
@@ -120,19 +137,19 @@ theorem s5 (X : Input) :
     Price.s5 X =
       X.NW.all (fun c => !Gen.C12.s5Fails (Price.roundCmp (Price.stableOf X c) (Gen.C12.s5Cost true (X.cost c) 0))) := rfl
 
-/-! ### the rounded comparisons, spelled out on the two rounded numbers -/
+/-! ### the rounded comparisons, spelled out on the rounded difference -/
 
-theorem c2_rounded (x y : Rat) : Gen.C12.c2Fails (Price.roundCmp x y) = decide (round2 x - round2 y > 0) := rfl
+theorem c2_rounded (x y : Rat) : Gen.C12.c2Fails (Price.roundCmp x y) = decide (round2 (x - y) > 0) := rfl
 
-theorem c3_rounded (x y : Rat) : Gen.C12.c3Fails (Price.roundCmp x y) = !decide (round2 x = round2 y) := by
+theorem c3_rounded (x y : Rat) : Gen.C12.c3Fails (Price.roundCmp x y) = !decide (round2 (x - y) = 0) := by
   unfold Gen.C12.c3Fails Price.roundCmp
-  simp [sub_eq_zero]
+  simp
 
-theorem c5_rounded (x y : Rat) : Gen.C12.c5Fails (Price.roundCmp x y) = decide (round2 y < round2 x) := by
+theorem c5_rounded (x y : Rat) : Gen.C12.c5Fails (Price.roundCmp x y) = decide (0 < round2 (x - y)) := by
   unfold Gen.C12.c5Fails Price.roundCmp
   simp
 
-theorem neg_rounded (x : Rat) : Gen.C12.negFails (Price.roundCmp x 0) = decide (round2 x < round2 0) := by
+theorem neg_rounded (x : Rat) : Gen.C12.negFails (Price.roundCmp x 0) = decide (round2 x < 0) := by
   unfold Gen.C12.negFails Price.roundCmp
   simp
 
@@ -161,9 +178,15 @@ theorem validate (X : Input) (stable exhaustive : Bool) :
 
 /-! ### the leaves on concrete numbers -/
 
-example : Gen.C12.c5Fails (Gen.C12.roundCmp 3 3) = false ∧ Gen.C12.c3Fails (Gen.C12.roundCmp 3 (5 / 2)) = true ∧
+example : Gen.C12.c5Fails (Gen.C12.roundCmp (fun x _ => x) 3 3 2) = false ∧
+    Gen.C12.c3Fails (Gen.C12.roundCmp (fun x _ => x) 3 (5 / 2) 2) = true ∧
     Gen.C12.s5Summand 1 (3 / 2) = 3 / 2 ∧ Gen.C12.leftover 5 2 = 3 ∧ Gen.C12.c1Fails false 1 = true := by
   refine ⟨?_, ?_, ?_, ?_, ?_⟩ <;> norm_num [Gen.C12.c5Fails, Gen.C12.c3Fails, Gen.C12.roundCmp, Gen.C12.s5Summand,
     Gen.C12.leftover, Gen.C12.c1Fails]
+
+/-- the leaf with Python's rounding on the pair that exposed the defect of the former formula (2.375 against
+    2.375 − 10⁻¹⁵): equal -/
+example : Gen.C12.roundCmp roundTo (19 / 8) (19 / 8 - 1 / 10 ^ 15) Gen.C12.checkRoundPrecision = 0 := by
+  rw [← roundCmp]; decide +kernel
 
 end Pabu.Bridge.C12
